@@ -9,6 +9,7 @@ HERE = os.path.dirname(os.path.dirname(os.path.abspath(__file__)))
 sys.path.insert(0, HERE)
 sys.dont_write_bytecode = True
 os.environ['VSTAT_NO_ALPHA'] = '1'
+os.environ['VSTAT_NO_INLINE'] = '1'
 
 from vstat.index import SourceIndex, FUNC_TYPES  # noqa: E402
 from vstat import alpha  # noqa: E402
@@ -29,6 +30,19 @@ for rel, module in idx.modules.items():
         fp = alpha.fingerprints(fn)
         if fp:
             out.setdefault(rel, {})[qual] = fp
+inventory = {}
+for rel, module in idx.modules.items():
+    names = set()
+    for st in module.tree.body:
+        if isinstance(st, FUNC_TYPES):
+            names.add(st.name)
+        elif type(st).__name__ == 'ClassDef':
+            for it in st.body:
+                if isinstance(it, FUNC_TYPES):
+                    names.add('{}.{}'.format(st.name, it.name))
+    inventory[rel] = sorted(names)
+with open(os.path.join(HERE, 'vstat', 'functions.json'), 'w') as handle:
+    json.dump(inventory, handle, indent=0, sort_keys=True)
 with open(os.path.join(HERE, 'vstat', 'roles.json'), 'w') as handle:
     json.dump(out, handle, indent=0, sort_keys=True)
 print('functions', sum(len(v) for v in out.values()), 'locals', sum(len(f) for v in out.values() for f in v.values()))
